@@ -54,12 +54,20 @@ def decPlug (to : Timeouts) (j : Json) : Except String Behaviour := do
   let idx ← getStr j "idx"
   let reg ← getStr j "reg"
   let early := getStrD j "close" == "early"
+  let events ← getNat j "events"
+  if reg == "stub" then
+    -- a real stub around a plugin with all thirteen handlers: registers at once; its own
+    -- Configure refuses a mask naming anything beyond them (C15_configure), answers an empty
+    -- mask with all thirteen, and otherwise passes the mask on
+    let refused := events &&& 0xffffe000 != 0
+    return { regAt := some 0, name := S name, idx := S idx, closeAt := none, cfgAt := some 0, cfgErr := refused,
+             events := BitVec.ofNat 32 (if events == 0 then 0x1fff else events), syncAt := some 0, syncErr := false }
   let (regAt, _) ← delay reg to.reg
   let (cfgAt, cfgErr) ← delay (← getStr j "cfg") to.req
   let (syncAt, syncErr) ← delay (← getStr j "sync") to.req
   pure { regAt := if early then none else regAt, name := S name, idx := S idx,
          closeAt := if early then some 0 else none,
-         cfgAt, cfgErr, events := BitVec.ofNat 32 (← getNat j "events"), syncAt, syncErr }
+         cfgAt, cfgErr, events := BitVec.ofNat 32 events, syncAt, syncErr }
 
 def outcomeS : Outcome → String
   | .closedEarly => "closed-early" | .regTimeout => "reg-timeout"
@@ -151,7 +159,8 @@ def judgeChain (inp obs : Json) : Except String Verdict := do
     let wellFormed := name != "" && (match idx.toList with
       | [a, c] => a.toNat ≥ 48 && a.toNat ≤ 57 && c.toNat ≥ 48 && c.toNat ≤ 57
       | _ => false)
-    let timely := !early && (regMode == "now" || regMode == "short")
+    let timely := !early && (regMode == "now" || regMode == "short" || regMode == "stub")
+    if regMode == "stub" then cover := "plugin:real-stub" :: cover
     let cfgMode := getStrD pj "cfg"
     let cfgAnswered := cfgMode == "answer" || cfgMode == "short"
     let validMask := events &&& 0xffffe000 == 0
